@@ -11,6 +11,7 @@ from mc.engine.report import Violation
 from mc.engine.seams import Canon
 
 from ECAgent.Batching import ParameterList
+import ECAgent.Core as Core
 
 VALUES = {
     'int': lambda: 7,
@@ -29,12 +30,16 @@ VALUES = {
     'npdt': lambda: np.array(['2021-03-04T05:06:07.000000008', '2021-03-05'], dtype='datetime64[ns]'),
     'tuple_f': lambda: (1.0, 1.0),                               # equal to tuple_rep element by element, but floats
     'legacy_seq': lambda: LegacySeq([4, 5, 6]),                  # iterable through __len__/__getitem__ only
+    # collections of exactly one value that is itself a collection (a grid shape, a list of seeds, an empty list)
+    'one_tuple': lambda: [(10, 20)],
+    'one_list': lambda: ([11, 12, 13],),
+    'one_empty': lambda: [[]],
 }
 EXPANDED = {
     'int': [7], 'str': ['xy'], 'empty': [], 'one': [1], 'two': [1, 2], 'tuple_rep': [1, 1], 'range2': [0, 1],
     'nparr': [1, 2], 'none': [None], 'strs': ['p', 'qq'], 'nested': [[1, 2], 'ab'], 'np2d': [[1, 2], [3, 4], [5, 6]], 'np0d': [5],
     'npdt': ['dt:2021-03-04T05:06:07.000000008', 'dt:2021-03-05T00:00:00.000000000'],
-    'tuple_f': [1.0, 1.0], 'legacy_seq': [4, 5, 6],
+    'tuple_f': [1.0, 1.0], 'legacy_seq': [4, 5, 6], 'one_tuple': [[10, 20]], 'one_list': [[11, 12, 13]], 'one_empty': [[]],
 }
 NAMES = ['pa', 'pb', 'pc']
 STARTS = {
@@ -125,6 +130,18 @@ class World:
     pass
 
 
+class AnyModel(Core.Model):
+    """Takes whatever parameters it is given."""
+
+    def __init__(self, **kw):
+        super().__init__()
+        self.kw = kw
+
+
+def zero_score(model):
+    return 0.0
+
+
 class Harness:
     def __init__(self, start, values):
         self.start = start
@@ -157,6 +174,8 @@ class Harness:
             ops += [['add', n, v] for v in self.values]
             ops.append(['remove', n])
         ops += [['add', 3, 'int'], ['remove', 'zz'], ['ctor_bad'], ['build']]
+        if w.decl and 'self' not in [n for n, _ in w.decl]:
+            ops.append(['use'])
         if hasattr(w, 'src'):
             ops.append(['edit_source'])
         return ops
@@ -170,6 +189,17 @@ class Harness:
         if op[0] == 'build':
             # building is an operation of its own: whatever build() remembers must not show in later builds
             self.check(w)
+            return
+        if op[0] == 'use':
+            # the list is handed to the library's own consumers (a search and a batch, one process): what they do with the
+            # parameter sets they evaluate is their business, the declaration stays what it is
+            from ECAgent.Batching import grid_search, batch_run
+            for consumer in (lambda: grid_search(AnyModel, w.pl, zero_score, max_timesteps=1),
+                             lambda: batch_run(AnyModel, w.pl, max_timesteps=1)):
+                try:
+                    consumer()
+                except Exception:      # noqa - e.g. a search over an empty product: not this property's matter
+                    pass
             return
         if op[0] == 'edit_source':
             # the caller goes on using ITS dictionary (e.g. to derive the next list): the lists built from it earlier
@@ -432,7 +462,7 @@ def run(ctx):
         plan = [('empty', vals, 2), ('dict_ab', vals[:5], 2)]
     elif ctx.tier == 'quick':
         vals = ['int', 'str', 'empty', 'one', 'two', 'tuple_rep', 'range2', 'nparr', 'none', 'np2d', 'np0d', 'npdt', 'tuple_f',
-                'legacy_seq']
+                'legacy_seq', 'one_tuple', 'one_list', 'one_empty']
         plan = [('empty', vals, 3), ('dict_ab', vals[:5], 2), ('empty_dict', vals[:3], 1), ('dict_ba', vals[3:8], 2),
                 ('dict_special', vals[:5], 2)]
     else:
